@@ -23,6 +23,8 @@ RULE = ("whole files as line lists: 0-4 pragma lines (no/unknown/basic gdc-1.0.0
         "default; non-trivial: at least one data line was reached or an exception was raised; distinct by hash of "
         "(lines, mode, override)")
 ASSUMPTIONS = [
+    "hypothesis of the theorems: every scheme (registry entry or override) has distinct column names - schemes keep "
+    "their columns in a dict; checked on the imported registry each run (generated obligation)",
     "typed column classes (built-in schemes) are represented in the extracted run by an oracle table obtained from the "
     "real classes for exactly the (class, field text) pairs of the case: build ok/failed, custom validation objects, "
     "str(column), str/int of the value; the Coq theorems hold for every total column semantics",
@@ -56,6 +58,10 @@ def declared_order(header_lines):
                 return v
             # an unrecognised value is a malformed line, a later one may still count
     return None
+
+
+def EXTRA_OBLIGATIONS(ctx):
+    return [R.schemes_wf_obligation()]
 
 
 def corpus():
